@@ -32,23 +32,25 @@ MANIFEST = dict(
          'by a get about to return it, hence put-to-get exactness (accepted = returned + held + in pipe + with a feeder + '
          'buffered, as multisets); _unfinished_tasks = puts counted - task_dones counted, task_done raises ValueError exactly '
          'when that is 0 and join\'s test reads zero exactly then. On the choice go a put fails with Full exactly when the '
-         'semaphore is 0; a non-blocking get finds nothing exactly when the pipe is empty. REFUTED (C16_lose_nothing_refuted, '
-         'witness replayed on the real classes): "lose nothing" is false of the code: when ForkingPickler.dumps raises in the '
-         'feeder, Queue._feed returns (its except clause is outside the loop); the token of the dropped item is never returned '
-         'and everything that process puts afterwards is accepted and never delivered. Correspondence: the real Queue / '
-         'JoinableQueue / SimpleQueue, including the real feeder Queue._feed, run over the fake _semlock / pipe / threading / '
-         'clock of harness/detsched.py + c16_fakes.py under explicit schedules (items that cannot be pickled and deadlines that '
-         'pass included) and must produce the micro-trace, results, final semaphores, pipe and buffers the Coq interpreter '
-         'computes; Gallina monitors (loss/dup/order on the pipe traffic, results vs events, capacity at quiet ends incl. the '
-         'tokens lost with a dead feeder, locks held by finished calls, a get stuck beside a non-empty pipe, join/task_done) '
-         'classify differences.',
+         'semaphore is 0; a non-blocking get finds nothing exactly when the pipe is empty. Failing serialisation (the feeder '
+         'as repaired by 36337df: handler inside the loop, queue_sem.release()): the FIFO and no-loss identities hold for every '
+         'object that can be serialised, an object that cannot is the only loss (never sent, never received) and costs no '
+         'capacity (its token is in transit until the feeder releases it), a feeder never ends (C16_feeder_never_ends); the '
+         'witness of the former refutation is now the regression Example C16_later_put_is_delivered. Correspondence: the real '
+         'Queue / JoinableQueue / SimpleQueue, including the real feeder Queue._feed, run over the fake _semlock / pipe / '
+         'threading / clock of harness/detsched.py + c16_fakes.py under explicit schedules (items that cannot be pickled and '
+         'deadlines that pass included) and must produce the micro-trace, results, final semaphores, pipe and buffers the Coq '
+         'interpreter computes; Gallina monitors (loss/dup/order on the pipe traffic, results vs events, capacity at quiet '
+         'ends, every accepted picklable item written in order at a quiet end, an ended feeder thread, locks held by finished '
+         'calls, a get stuck beside a non-empty pipe, join/task_done) classify differences.',
     note='Trusted: Coq kernel; translate/kernels/semprog.py; semaphore primitive as in C17; threading.Condition modelled by '
          'harness/c16_fakes.TCond (lock + notification semaphore + waiter count); pipe = list of whole messages (C13 + locks), send '
          'never blocks; pickling modelled only as far as it can fail (messages >= 1000 are objects whose pickling raises); the '
          'deadline of a timed get is an oracle at the point where the code computes deadline - monotonic(). PARTIAL: the sleeping '
          'path of JoinableQueue.join (wait/notify_all) and SimpleQueue are covered by the correspondence, the monitors and the '
          'search on the generated program only; Full for timed puts is an oracle choice; eventual delivery is liveness, not '
-         'modelled. KNOWN DEFECT: feeder thread ends on a serialisation error (see C16_lose_nothing_refuted).',
+         'modelled. The translator also recognises the feeder as it was before the repair (thread ends on a '
+         'serialisation error) so that the check reports that behaviour concretely if it returns.',
     technique='Coq proof over translator-regenerated queue programs (weight functions + ghost logs + case analysis on pc) + schedule-exact differential correspondence on the real classes',
     ref='5.16',
 )
@@ -345,11 +347,10 @@ def classify(res, records, codes):
             mains_done = all(r['fins'][t] for t in range(0, len(r['fins']), 2))
             res.alarms.append(dict(
                 signature=FEEDER_SIG,
-                what='real %s (model and implementation agree, every other monitor passes): the feeder thread Queue._feed of '
-                     'process(es) %s ENDED after ForkingPickler.dumps raised for an unpicklable item (the `except Exception` '
-                     'of _feed is outside its `while 1`); items accepted by later puts stay in the dead feeder\'s buffer for '
-                     'ever: %s; capacity semaphore %d of maxsize %d with %d item(s) in the pipe%s; scripts %s, schedule %s, '
-                     'results %s, end %s'
+                what='real %s: the feeder thread Queue._feed of process(es) %s ENDED although its queue is in use (the defect '
+                     'repaired by 36337df is back: an exception in the feeder, e.g. ForkingPickler.dumps raising for an unpicklable '
+                     'item, leaves its `while 1`); items accepted by later puts stay in the dead feeder\'s buffer for ever: %s; '
+                     'capacity semaphore %d of maxsize %d with %d item(s) in the pipe%s; scripts %s, schedule %s, results %s, end %s'
                      % (r['kind'], dead, json.dumps(stranded) if stranded else 'none in this run', r['vals'][0], r['maxsize'],
                         len(r['pipe']), ' (every main thread has finished: the missing tokens are lost)' if mains_done else '',
                         json.dumps(r['scripts']), json.dumps(r['sched']), json.dumps(r['results']), r['end']),
@@ -474,6 +475,6 @@ def replay(path):
     codes, _ = core.coq_eval('C16r', HEADER, [[to_coq(r)]])
     print('model agrees, monitors pass' if not codes else
           ('property monitor fails / results differ (code 2)' if codes[0][1] == 2 else
-           'model and implementation agree; a feeder thread ended: later puts of its process are never delivered (code 3)'
+           'a feeder thread ended: later puts of its process are never delivered (code 3)'
            if codes[0][1] == 3 else 'micro-trace differs (code 1)'))
     return 1 if codes else 0
